@@ -69,7 +69,7 @@ def _summarize(interp, thunk, bound=(), pure=True):
             mark = len(ctx.pc)
             ctx.solver.push()
             snap = (dict(ctx.known_tags), set(ctx.wf_done), dict(ctx.ghost), len(ctx.writes), len(ctx.events),
-                    len(ctx.checks), len(ctx.covers), set(ctx.pc_ids))
+                    len(ctx.checks), len(ctx.covers), set(ctx.pc_ids), len(ctx.lazy))
             snap_lists = {k: list(v) for k, v in ctx.ghost.items() if isinstance(v, list)}
             out = None
             try:
@@ -95,6 +95,7 @@ def _summarize(interp, thunk, bound=(), pure=True):
                 ctx.solver.pop()
                 ctx.known_tags, ctx.wf_done = snap[0], snap[1]
                 ctx.pc_ids = snap[7]
+                del ctx.lazy[snap[8]:]
                 g = snap[2]
                 for k, v in snap_lists.items():
                     g[k] = v
@@ -128,7 +129,7 @@ def merged_call(interp, clo, args, kwargs):
     return (result terms merged with ite) and one per raised exception class."""
     ctx = interp.ctx
     try:
-        outs = summarize(interp, lambda: interp.run_closure(clo, args, kwargs))
+        outs = summarize(interp, lambda: interp.run_closure(clo, args, kwargs), site=("merged", clo.qualname, len(args)))
     except Unsupported as u:
         if "impure" in str(u):
             return interp.run_closure(clo, args, kwargs)
